@@ -7,6 +7,25 @@ import subprocess
 VERIF = os.path.dirname(os.path.dirname(os.path.abspath(__file__)))
 
 CHECKS = {
+ "C02": ("exploration", "§4 C02",
+         "Observer on every P matrix the real scheduler computes in simulated multi-worker / wire-fencing "
+         "histories, compared with exact permanent ratios (Fractions) on the idle block plus structural "
+         "laws; covers reachable (W, locks, row order) states only.",
+         "the for-all-matrices quantifier is input enumeration and is not claimed; reached-state counts are in the evidence.",
+         "deterministic simulation: seeded multi-worker schedules reaching (W, lock) states, exact-permanent oracle per state"),
+ "C09": ("exploration", "§4 C09",
+         "Per-job monitor over simulated histories: membership invariants of every accepted path, "
+         "bit-identity of the old path and files on rejection, and a bit-exact reference model of the "
+         "shooting move (clones of the job's streams) predicting verdict and order sequence, with "
+         "maxlength steered so that 'trial fills the bound exactly' is hit hundreds of times per run.",
+         "reference model for shooting on the lattice engine only; wf / zero swap: invariants.",
+         "deterministic simulation: seeded histories, per-job reference model (refinement check) on recorded streams"),
+ "C14": ("exploration", "§4 C14",
+         "Storage monitor over simulated accept/reject histories with delete_old settings, several workers "
+         "and restarts: load-back of every stored path, file presence for live / in-flight / restart-listed "
+         "paths, initial paths hashed, deletion lag.",
+         "lattice engine paths (two files, reversed frames); energies absent there.",
+         "deterministic simulation: seeded schedules and restart sequences, storage invariants after every step"),
  "C03": ("exploration", "§4 C03",
          "Seeded search over completion orders, durations, crashes and restarts of the real scheduler; "
          "invariants against a reference model of the in-flight set built only from what crosses the "
@@ -55,7 +74,7 @@ NOT_APPLICABLE = {
  "C20": "algebraic symmetry laws over coordinates; no schedule, time or fault dimension (DESIGN.md §6)",
 }
 PENDING = {k: "check under construction (simulation layer not built yet); not claimed until it runs clean on the unchanged tree"
-           for k in ("C01", "C02", "C08", "C09", "C12", "C13", "C14")}
+           for k in ("C01", "C08", "C12", "C13")}
 
 
 def main():
